@@ -151,6 +151,10 @@ const nilIface = "(mk_iface T_nil any_nil)"
 // MAXLEN bounds every string and slice length (DESIGN §2.2: 2^40).
 const MAXLEN = "1099511627776"
 
+// nlmulAxiom is added only to scripts that mention nlmul (its mere presence made z3 answer unknown elsewhere).
+const nlmulAxiom = `(assert (forall ((a Int) (b Int)) (! (and (= (nlmul a b) (nlmul b a)) (=> (= a 0) (= (nlmul a b) 0)) (=> (= a 1) (= (nlmul a b) b)) (=> (and (>= a 0) (>= b 0)) (>= (nlmul a b) 0)) (=> (and (>= a 1) (>= b 0)) (>= (nlmul a b) b))) :pattern ((nlmul a b)))))
+`
+
 const prelude = `(set-logic ALL)
 (declare-sort Str 0)
 (declare-sort Type 0)
@@ -166,6 +170,7 @@ const prelude = `(set-logic ALL)
 (declare-const any_nil Any)
 (declare-const str_empty Str)
 (declare-fun otype (Int) Int)
+(declare-fun nlmul (Int Int) Int)
 (define-fun fldloc ((l Loc) (k Int)) Loc (mk_loc (l_base l) (l_idx l) (+ (* 64 (l_path l)) k 1)))
 (declare-fun elemloc (Slice Int) Loc)
 (assert (forall ((s Slice) (i Int)) (! (= (elemloc s i) (mk_loc (s_arr s) (+ (s_off s) i) 0)) :pattern ((elemloc s i)))))
